@@ -6,7 +6,7 @@ CLAIMED = {
   'text': 'Verus proves, for all FeelType values of any depth/arity, that the real is_equivalent/is_conformant bodies equal the '
           'standard\'s equivalence/conformance relations (spec functions), and that those relations satisfy the preorder / variance laws '
           'of the property (lemmas). Function-level proof; unbounded.',
-  'design_ref': 'DESIGN.md section 5 C16',
+  'design_ref': 'DESIGN.md section 5 (C16)',
   'note': 'Trusted: Verus/Z3, vstd specs of Vec/BTreeMap/iterators, the axiom that Name\'s derived Ord is a total order, the logged rewrite rules R1/R2; '
           'termination of is_conformant is not proved. Where coercion is applied in the evaluator is not decided.',
  },
@@ -16,7 +16,7 @@ CLAIMED = {
           'full functional postconditions (add succeeds iff namespace and name are free and then appends; remove drops exactly the matching models; '
           'replace always succeeds and substitutes; deploy leaves evaluators exactly for the buildable stored models; evaluation possible iff an evaluator exists; '
           'every mutation empties the evaluators). Holds for every finite history by induction.',
-  'design_ref': 'DESIGN.md section 5 C17',
+  'design_ref': 'DESIGN.md section 5 (C17)',
   'note': 'Trusted: Verus/Z3, vstd HashMap/Vec/Arc specs plus added axioms for String keys and Vec::retain; Definitions/ModelEvaluator opaque (namespace, name, builds uninterpreted); '
           'load_and_deploy_models (file system) assumed to preserve the invariant.',
  },
@@ -25,7 +25,7 @@ CLAIMED = {
           'is_valid_date and new_opt accept exactly valid dates in the FEEL year range; date(y,m,d) from integer-valued numbers accepts exactly valid triples and stores them unchanged; '
           'date equality and order are the calendar order (total); ym_duration is the number of whole months (antisymmetric, truncated toward zero); '
           'duration component getters are the normalised mixed-radix decomposition. Partial: instants/zones/weekday rely on chrono and are not decided.',
-  'design_ref': 'DESIGN.md section 5 C15',
+  'design_ref': 'DESIGN.md section 5 (C15)',
   'note': 'Trusted: Verus/Z3; chrono accepts only valid dates (stub); FeelNumber order/conversions exact on integers (stubs); abs specs. Not decided: date-time instants, zone rules, weekday, non-integer arguments.',
  },
  'C14': {
@@ -33,7 +33,7 @@ CLAIMED = {
           'for every i32 offset; each of the 32 arms of the days-and-time duration printer and the 4 arms of the years-and-months printer prints exactly the non-zero components of the '
           'normalised decomposition with the right sign (PT36H -> P1DT12H, P14M -> P1Y2M); FeelZone::new and is_valid_time meet their definitions. Partial: literal acceptance (regex), '
           'fraction parsing (f64) and the formatter itself are not decided.',
-  'design_ref': 'DESIGN.md section 5 C14',
+  'design_ref': 'DESIGN.md section 5 (C14)',
   'note': 'Trusted: Verus/Z3; core::fmt renders the constrained arguments as documented (R5 sinks, slots derived mechanically from the format literal); nanoseconds_to_string opaque.',
  },
  'C09': {
@@ -41,7 +41,7 @@ CLAIMED = {
           'eval_ternary_equality returns true exactly for deeply equal values and, for every pair other than two contexts, equals a symmetric table (null = x is x = null); '
           '= and != are each other\'s negation; < <= > >= on numbers, strings and dates are the order relations, with a < b == b > a, a <= b == b >= a, trichotomy and '
           '<= == (< or =) as lemmas; between, in-range (open end = strict) and a <= x and x <= b agree; dates are totally ordered by (year, month, day).',
-  'design_ref': 'DESIGN.md section 5 C09',
+  'design_ref': 'DESIGN.md section 5 (C09)',
   'note': 'Trusted: Verus/Z3; number order is a strict total order (decimal128 comparison assumed); String order axioms; chrono-based time/date-time relations uninterpreted; '
           'closure lifting R4 (wiring not decided). Context pairs with equal key sets and mixed unequal/incomparable entries are only partly decided.',
  },
@@ -50,7 +50,7 @@ CLAIMED = {
           'mixed-radix rank k and the loop exits after exactly the product of the domain sizes calls, for all isize range bounds, ascending and descending (ghost trace, inductive invariant); '
           'add_range/add_list build well-formed states; the operator closures and/or/=/!=/</<=/>/>=/between/in-range equal the value tables of the standard (unit compare); '
           'Scope::get_entry/search_deep resolve names innermost-first. Known finding (replayed each run): an empty list domain beside a non-empty one still iterates.',
-  'design_ref': 'DESIGN.md section 5 C01',
+  'design_ref': 'DESIGN.md section 5 (C01)',
   'note': 'Trusted: Verus/Z3, vstd, stubs for FeelNumber and chrono; closure lifting R4 and RefCell erasure R8. Not decided: closure wiring (build_evaluator), arithmetic closures (pending), '
           'function definition/invocation, filters, paths, for/some/every result assembly, determinism.',
  },
@@ -59,14 +59,14 @@ CLAIMED = {
           'count, index of (sound and complete), list contains, append, all and not return exactly the specified value on their domain and null outside it, with no overflow for extreme positions/lengths; '
           'and for 34 built-ins that the positional wrapper handles exactly the legal arities and that the named wrapper passes the standard\'s parameter names in the standard\'s order to the same core '
           'function (named invocation = positional invocation; contracts generated from a table of DMN signatures). Known finding replayed each run: any().',
-  'design_ref': 'DESIGN.md section 5 C08',
+  'design_ref': 'DESIGN.md section 5 (C08)',
   'note': 'Trusted: Verus/Z3, vstd; FeelNumber predicates/conversions as stated stubs; String char iteration stubs; core functions uninterpreted in the dispatch unit. Not decided: regex/conversion/aggregate functions, sort, flatten/union/distinct values.',
  },
  'C05': {
   'text': 'Partial. The conjunction of the automatic Verus obligations (arithmetic overflow/underflow, division by zero, index and slice bounds, Option::unwrap, and termination where a decreases clause is given) '
           'of every function under contract in all units: the FEEL lexer layout/literal functions (with termination), FeelIterator::run for all isize bounds, the list/string position built-ins for extreme positions and lengths, '
           'calendar and duration arithmetic, type relations. Plus a BOUNDED stand-in (labelled bounded, not counted as proved) for the byte-indexed string search built-ins.',
-  'design_ref': 'DESIGN.md section 5 C05',
+  'design_ref': 'DESIGN.md section 5 (C05)',
   'note': 'Trusted: Verus/Z3, vstd and the stated std specs. Not decided: the LALR parse driver and reduce actions, read_next_token, consume_name, evaluator recursion depth, regex/chrono panics, '
           'built-ins not under contract, format!-built messages. abs() at MIN and nanoseconds >= 2^32 are excluded by stated preconditions.',
  },
@@ -75,7 +75,7 @@ CLAIMED = {
           'are skipped before a token (read_input ends at a non-layout character; consecutive comments included); consume_digits returns the maximal digit run; \\uXXXX / \\UXXXXXX escapes have their hexadecimal value; '
           'consume_unicode yields exactly the denoted scalar value for every 4-hex, 6-hex and surrogate-pair escape (UTF-8 assembly proved with bit-vector lemmas against RFC 3629) and errors otherwise; '
           'consume_string returns exactly the code points the literal denotes (all escape forms) and accepts every well-formed literal. Precedence/associativity are NOT decided.',
-  'design_ref': 'DESIGN.md section 5 C06',
+  'design_ref': 'DESIGN.md section 5 (C06)',
   'note': 'Trusted: Verus/Z3; String::from_utf8 = RFC 3629 decoding (stub); char classification std specs. Not decided: LALR tables and reduce actions (operator precedence, associativity), keyword/number tokenisation, names.',
  },
  'C03': {
@@ -83,28 +83,28 @@ CLAIMED = {
           'the 12 hit-policy functions and their dispatch return what the policy prescribes over exactly the matching rules (UNIQUE, ANY, FIRST, PRIORITY, RULE ORDER, OUTPUT ORDER, COLLECT list/count/sum/min/max), '
           'the default on no match, contexts keyed by component names for compound outputs; the output-value priority comparator is the lexicographic rank order; and (unit compare) the unary tests '
           '< <= > >= and not(...) used by input entries accept exactly the values they should.',
-  'design_ref': 'DESIGN.md section 5 C03',
+  'design_ref': 'DESIGN.md section 5 (C03)',
   'note': 'Trusted: Verus/Z3; evaluators are opaque (dyn Fn); sort_by sorts by the (verified) comparator (assumed: result is a permutation); filter/collect and position stubs; FEEL aggregates uninterpreted. '
           'Not decided: parsing of the table from XML/text, interval/list unary tests inside input entries beyond those under contract.',
  },
  'C12': {
   'text': 'Partial (index-safety kernels). Verus proves that the decision-table evaluation code never indexes out of bounds given every rule carries one output value per output clause (get_result, hit policies, '
           'compound outputs with fewer names than outputs answer null), that evaluate_parsed_decision_table preserves rule/output arities, and that Workspace::deploy skips models that fail to build and deploys the others.',
-  'design_ref': 'DESIGN.md section 5 C12',
+  'design_ref': 'DESIGN.md section 5 (C12)',
   'note': 'Not decided: XML parsing (roxmltree), missing attributes, dangling references, cyclic requirements, item-definition classification (pending), parse_decision_table\'s arity validation (repaired by a fix: commit, not yet under contract).',
  },
  'C11': {
   'text': 'Partial. Verus proves on the real closure bodies (contracts generated per type from one table of the eight simple types): the simple-type and collection-of-simple-type item-definition evaluators and the '
           'typed input-variable evaluators return the value unchanged when it is of the declared kind (every element, for collections) and passes the allowed-values check, and null otherwise; '
           'check_allowed_values returns the value iff the test accepts it; item_definition_type classifies every typeRef/components/isCollection combination or reports an error; output coercion is FeelType::coerced (C16).',
-  'design_ref': 'DESIGN.md section 5 C11',
+  'design_ref': 'DESIGN.md section 5 (C11)',
   'note': 'Trusted: Verus/Z3; evaluators/scopes opaque; closure lifting R4 ties each closure to the builder name / typeRef literal it sits under. Not decided: component/referenced item definitions, dispatch match arms, where coercion is applied.',
  },
  'C18': {
   'text': 'Partial (definitions endpoints only). Verus proves on the real handler bodies that clear/add/replace/remove/deploy perform exactly the workspace operation the endpoint names on the model decoded from the request '
           '(replace substitutes the stored model), report the workspace operation\'s failure as an error, and leave the workspace unchanged on every malformed-request path (missing content, invalid base64, invalid UTF-8, '
           'unparsable model); together with the workspace representation invariant of C17.',
-  'design_ref': 'DESIGN.md section 5 C18',
+  'design_ref': 'DESIGN.md section 5 (C18)',
   'note': 'Not decided: well-formedness of the JSON text (jsonify / serde: string code; strings are not escaped - a defect this family cannot decide), TCK DTO round trip (pending), actix routing, body limits, lock poisoning, survival after malformed requests.',
  },
  'C13': {
@@ -113,7 +113,7 @@ CLAIMED = {
           'boxed function definition and boxed invocation), given the induction hypothesis that sub-evaluators do; and that each parser reduce action with an access path to the parsing scope has exactly its bracket role '
           '(begin actions push one temporary context, end actions pop it, name-registering actions write only into the top context, any other action leaves the scope alone); a syntactic frame check scans parser.rs on every run '
           'so that no other function has an access path.',
-  'design_ref': 'DESIGN.md section 5 C13',
+  'design_ref': 'DESIGN.md section 5 (C13)',
   'note': 'Trusted: Verus/Z3; R8 (RefCell erased, &Scope becomes &mut Scope), R8a (parser and lexer scope references are one object), A-eval (sub-evaluators are scope-neutral: induction hypothesis), '
           'A-grammar (each begin action\'s mid-rule symbol occurs in one production whose end action pops: read from the generated production comments of lalr.rs, not proved), FeelIterator::run reaches the scope only through its handler. '
           'Not decided: repeatability of values (whole-history), failed parses.',
@@ -124,7 +124,7 @@ CLAIMED = {
           'LONGEST prefix of these parts whose flattened text is a key of the scope, with the cursor put back right behind that prefix - or, when no prefix is bound, of all parts (the two tweaks for `item` and for the variable before `in` '
           'are spelled out as separate cases). The string code deciding equality of flattened texts is covered only by a BOUNDED stand-in (all names of up to 5 parts over 3 words and 6 symbols, through parse + evaluate on the real code). '
           'Scope lookup (innermost binding wins) is proved in unit scope.',
-  'design_ref': 'DESIGN.md section 5 C10',
+  'design_ref': 'DESIGN.md section 5 (C10)',
   'note': 'Trusted: Verus/Z3; uninterpreted flatten_name_parts / Name::from / flatten_keys; HashSet<String> key model. Not decided: every grammar position where a name may occur (parser), termination.',
  },
  'C19': {
@@ -133,7 +133,7 @@ CLAIMED = {
           'preconditions; (as drawn) a directional search returns the nearest searched character reachable over allowed characters only; recognised rectangles are closed and lie inside the grid; the TEXT layer is never modified '
           'after scanning; crossings are the first cells of their kind; the hit policy is the marker in the top-left (rules as rows) or bottom-left (rules as columns) region; rule numbers are exactly 1..n below / after the output '
           'double line and n is the rule count; orientation follows marker and rule number placement.',
-  'design_ref': 'DESIGN.md section 5 C19',
+  'design_ref': 'DESIGN.md section 5 (C19)',
   'note': 'Trusted: Verus/Z3; uninterpreted HitPolicy::try_from / usize::from_str; rewrites R17-R19, R1m. Not decided: Canvas::plane, recognize_horizontal_table, builder::build, canvas::scan text loop, equivalence with the XML table; '
           'panic freedom is per function under preconditions (A-plane), not end to end.',
  },
@@ -143,7 +143,7 @@ CLAIMED = {
           '(None exactly when it is not finite), equality and order by value, is_integer / odd / even by value, modulo from the exact remainder; abs / floor / ceiling stay finite. C half (BOUNDED, not a proof): the real operations '
           'are compared with CPython decimal as decimal128 on a fixed operand grid (about 41 000 operations quick, 1.5 million thorough). Five known findings are replayed on every run (overflow to Infinity, exp to Infinity, decimal() to NaN, '
           'modulo with a quotient of more than 34 digits, to_usize(-0)).',
-  'design_ref': 'DESIGN.md section 5 C02',
+  'design_ref': 'DESIGN.md section 5 (C02)',
   'note': 'Trusted: Verus/Z3; A-C (the C library computes the IEEE operation of each entry point: uninterpreted), A-IEEE, R9/R20/R21 rewrites. The arithmetic itself lives in C and is only covered by the bounded differential stand-in.',
  },
 }
